@@ -726,6 +726,45 @@ func (rn *runner) doNext() {
 	}
 }
 
+// doReload: the in-memory repository is saved and loaded back into itself (sometimes through JSON): a snapshot load in the
+// middle of a history; everything after it runs on the rebuilt heap
+func (rn *runner) doReload() {
+	for _, tg := range rn.ts {
+		if tg.s.inmem == nil {
+			return
+		}
+		kv := tg.s.inmem.Save()
+		if rn.g.r.Intn(2) == 0 {
+			js, err := json.Marshal(kv)
+			if err != nil {
+				panic(err)
+			}
+			kv = nil
+			if err := json.Unmarshal(js, &kv); err != nil {
+				panic(err)
+			}
+		}
+		if rn.scrib {
+			for _, e := range kv {
+				scribbleTask(e.Value)
+			}
+			kv = tg.s.inmem.Save()
+		}
+		term := kvTerm(kv)
+		err := tg.s.inmem.Load(kv)
+		if rn.scrib {
+			// ... and the snapshot handed to Load stays the caller's
+			for _, e := range kv {
+				scribbleTask(e.Value)
+			}
+		}
+		if tg == rn.ts[0] {
+			rn.stat("op:reload:" + resKind(cq.Err(err, isCtxErr)))
+		}
+		rn.emit(tg, term, cq.Err(err, isCtxErr))
+	}
+}
+
 func (rn *runner) doEntAdmin(kind string) {
 	g := rn.g
 	ctx := context.Background()
@@ -811,7 +850,7 @@ func (rn *runner) loadInvalid() {
 	rn.emit(tg, kvTerm(kv2), cq.Err(err, isCtxErr))
 }
 
-type weights struct{ add, get, update, cancel, dispatch, done, find, next, revert, canceldisp, delete int }
+type weights struct{ add, get, update, cancel, dispatch, done, find, next, revert, canceldisp, delete, reload int }
 
 func weightsFor(mode string, impl string) weights {
 	w := weights{add: 20, get: 8, update: 18, cancel: 10, dispatch: 12, done: 10, find: 8, next: 8}
@@ -825,6 +864,11 @@ func weightsFor(mode string, impl string) weights {
 	}
 	if impl != "ent" {
 		w.revert, w.canceldisp, w.delete = 0, 0, 0
+		// snapshot loads in the middle of a history (C02: "... and snapshot loads")
+		w.reload = 2
+		if mode == "c02" {
+			w.reload = 4
+		}
 	}
 	return w
 }
@@ -853,10 +897,12 @@ func (rn *runner) safely(f func()) {
 }
 
 func (rn *runner) history(n int, w weights, rich bool) {
-	total := w.add + w.get + w.update + w.cancel + w.dispatch + w.done + w.find + w.next + w.revert + w.canceldisp + w.delete
+	total := w.add + w.get + w.update + w.cancel + w.dispatch + w.done + w.find + w.next + w.revert + w.canceldisp + w.delete + w.reload
 	for i := 0; i < n; i++ {
 		x := rn.g.r.Intn(total)
 		switch {
+		case x >= total-w.reload:
+			rn.doReload()
 		case x < w.add:
 			rn.doAdd()
 		case x < w.add+w.get:
